@@ -1,9 +1,11 @@
 import IsoVerif.Driver.Core
 import IsoVerif.Model.BamMerge
 import IsoVerif.Model.GtfCache
+import IsoVerif.Model.BamPipeline
+import IsoVerif.Driver.C08
 
 namespace IsoVerif.Driver.C12
-open Lean IsoVerif.Driver IsoVerif.Gen IsoVerif.Model.C12
+open Lean IsoVerif.Driver IsoVerif.Gen IsoVerif.Model.C12 IsoVerif.Model.Resolver IsoVerif.Model.C02
 
 def jAln (j : Json) : Except String Aln := do
   let a ← j.getArr?
@@ -84,7 +86,71 @@ def runHistory (ops : Array Json) : Except String Json := do
       | .convertFailed => outs := outs.push (jErr "convert")
   pure (Json.mkObj [("results", Json.arr outs), ("cache", ofCache w.cache)])
 
+/-! ### end to end (Model/BamPipeline.lean) -/
+
+def jMatchN (j : Json) : Except String (Match Nat) := do
+  let (g, t) ← jPair (jOpt jNat) (jOpt jNat) j
+  pure { gene := g, transcript := t }
+
+def jPRec (j : Json) : Except String PRec := do
+  pure { basic := ← C08.jRec (← arg j "rec"), isoMatches := ← jList jMatchN (← arg j "m"),
+         nCorrectedExons := ← jNat (← arg j "nce"), isoformIntrons := ← jList (jPair jNat jNat) (← arg j "ii"),
+         rest := ← jNat (← arg j "rest") }
+
+def ofPRec (p : PRec) : Json := Json.mkObj [("rec", C08.ofRec p.basic), ("rest", ofNat p.rest)]
+
+def ofPartN (p : Part Nat) : Json :=
+  Json.mkObj [("rows", ofList (fun r => Json.arr #[ofNat r.1, ofInt r.2]) p.rows),
+              ("stats", ofNatList [p.ambiguous, p.noFeature, p.notAligned, p.usable])]
+
+def ofRatN (q : Rat) : Json := Json.arr #[ofInt q.num, ofNat q.den]
+
+def ofTpmN (t : TpmTable Nat) : Json :=
+  Json.mkObj [("rows", ofList (fun r => Json.arr #[ofNat r.1, ofRatN r.2, ofInt (millionths r.2)]) t.rows),
+              ("unassigned", Json.arr #[ofRatN t.unassigned, ofInt (millionths t.unassigned)])]
+
+def jCountingS (j : Json) : Except String CountingStrategy := C08.jCounting j
+
+def jNormN (j : Json) : Except String NormalizationMethod := do
+  let s ← jStr j
+  match NormalizationMethod.ofName? s with
+  | some x => pure x
+  | none => throw s!"unknown normalization {s}"
+
+/-- feature ids are interned fixed-width names ("T003", "G001"): numeric order = Python `str` order, and no name
+    starts with `_` -/
+def jConfig (j : Json) : Except String Config := do
+  let cg ← jList (jList jNat) (← arg j "complete_genes")
+  let ct ← jList (jList jNat) (← arg j "complete_transcripts")
+  pure { highMemory := ← jBool (← arg j "high_memory"),
+         geneStrategy := ← jCountingS (← arg j "gene_strategy"),
+         transcriptStrategy := ← jCountingS (← arg j "transcript_strategy"),
+         le := fun a b => decide (a ≤ b), norm := ← jNormN (← arg j "norm"), isStatLike := fun _ => false,
+         completeGenes := fun c => cg[c]?.getD [], completeTranscripts := fun c => ct[c]?.getD [],
+         mergeOrder := ← jList jNat (← arg j "merge_order") }
+
+def ofOutput (o : Output) : Json :=
+  Json.mkObj [("chrs", ofList (fun c => Json.mkObj [("records", ofList ofPRec c.records), ("gene", ofPartN c.gene),
+                                                     ("transcript", ofPartN c.transcript)]) o.chrs),
+              ("gene", ofPartN o.geneCounts), ("transcript", ofPartN o.transcriptCounts),
+              ("gene_tpm", ofTpmN o.geneTpm), ("transcript_tpm", ofTpmN o.transcriptTpm)]
+
+def idsOfTable (t : List (List Nat)) : Nat → Nat → Nat := fun c i => (t[c]?.getD [])[i]?.getD (1000000 + i)
+
 def ops : List (String × Handler) := [
+  ("downstream", fun j => do
+      let cfg ← jConfig (← arg j "cfg")
+      let ids ← jList (jList jNat) (← arg j "ids")
+      let unmapped ← jList jNat (← arg j "unmapped")
+      let chroms ← jList (jList jPRec) (← arg j "chroms")
+      match downstream cfg (idsOfTable ids) unmapped chroms with
+      | none => pure (jErr "error")
+      | some o => pure (ofOutput o)),
+  ("count_unaligned", fun j => do pure (ofNat (countUnaligned (← jList jNat (← arg j "unmapped"))))),
+  ("stamp", fun j => do
+      let ids ← jList jNat (← arg j "ids")
+      let l ← jList jPRec (← arg j "records")
+      pure (ofList ofPRec (stampChr (← jNat (← arg j "chr")) (fun i => ids[i]?.getD (1000000 + i)) l))),
   ("merge", fun j => do pure (ofList ofEntry (merge (← jFiles (← arg j "files"))))),
   ("forwarded", fun j => do
       let files ← jFiles (← arg j "files")
